@@ -127,7 +127,8 @@ func Specials() []string {
 	heads := []string{"<?php ", "<?php\n", "<?php\r\n", "<?php\t", "<? ", "<?= $x; ", "<?=$x?>", "#!/usr/bin/php\n<?php ", "#!x\n", "#!x\n<html>\n<?php ",
 		"<html>\n<?php ", "<html><?php ", "\n<?php ", "<?PHP ", "<?Php\n", "<<?php ", "x<?php ", "#!x\r\n<?php ", "\xef\xbb\xbf<?php "}
 	bodies := []string{"$a;", "echo 1;", "if ($a): ?>\nx\n<?php endif;", "foo() ?>", "function f() { ?>x<?php }", "$a; /*c*/ ?>", "$a ; ?>", "$a;\n?>",
-		"$a;//c\n?>", "$a;//c ?>", "$a //c ?> x <?php ;", "$a #c\r;", "/** d */ function f() {}", "/**/ $a;", "switch ($a) { case 1: ?>x<?php break; }"}
+		"$a;//c\n?>", "$a;//c ?>", "$a //c ?> x <?php ;", "$a #c\r;", "/** d */ function f() {}", "/**/ $a;", "switch ($a) { case 1: ?>x<?php break; }",
+		"$a ?>\r\nx<?php ;", "$a ?>\rx<?php ;", "$a; ?>\r\n<b>\r\n<?php ;", "if ($a): ?>\r\nx\r\n<?php endif;", "$a ?>\n\nx<?php ;", "$a ?>\r\n\r\nx<?php ;"}
 	tails := []string{"", "?>", "?>\n", "?>\r\n", "?>\r", "?>x", "?>\n\n", "?>\n<?php ;", " __halt_compiler();", " __halt_compiler();x<?php y \x00\xff",
 		" __halt_compiler ( ) ;x", " __halt_compiler()?>x", " __HALT_COMPILER();\n<?php 1", "\n", " ", "//c", "#c", "/*c*/", "// c ?>", "/** d */"}
 	var out []string
